@@ -32,5 +32,8 @@ pub assume_specification[ u64::reverse_bits ](x: u64) -> (r: u64) ensures r as n
 pub assume_specification<T: Clone>[ <[T]>::to_vec ](s: &[T]) -> (r: Vec<T>)
     ensures r@.len() == s@.len(), forall|i: int| 0 <= i < s@.len() ==> call_ensures(T::clone, (&s@[i],), #[trigger] r@[i]);
 
+pub assume_specification<T, E, U>[ Result::<T, E>::and::<U> ](a: Result<T, E>, b: Result<U, E>) -> (r: Result<U, E>)
+    ensures r == (match a { Ok(_) => b, Err(e) => Err(e) });
+
 } // verus!
 } // mod stdx
